@@ -86,7 +86,7 @@ Definition u_pre (u : upc) : bool := match u with UC CLock => true | _ => false 
 Definition r_pre (r : rpc) : bool :=
   match r with RClose CLock => true | RClose _ => false | _ => true end.
 Definition r_can_reply (r : rpc) : nat :=
-  match r with RNone | RRead | RReply | RClassify ROther => 1 | _ => 0 end.
+  match r with RNone | RRead | RReply | RClassify ROther | RHand _ => 1 | _ => 0 end.
 Definition r_late (r : rpc) : bool :=
   match r with RClose _ | RExit | RDone => true | _ => false end.
 Definition r_none (r : rpc) : bool := match r with RNone => true | _ => false end.
@@ -121,9 +121,9 @@ Proof. apply forallb_sum0. intros [[]| |]; cbn; congruence. Qed.
 Lemma pre_sum_s l : forallb u_pre l = true -> list_sum (map u_s l) = 0.
 Proof. apply forallb_sum0. intros [[]| |]; cbn; congruence. Qed.
 Lemma r_pre_w r : r_pre r = true -> r_w r = 0.
-Proof. destruct r as [| | | |[]| |]; cbn; congruence. Qed.
+Proof. destruct r as [| | | |[]| | |]; cbn; congruence. Qed.
 Lemma r_pre_s r : r_pre r = true -> r_s r = 0.
-Proof. destruct r as [| | | |[]| |]; cbn; congruence. Qed.
+Proof. destruct r as [| | | |[]| | |]; cbn; congruence. Qed.
 
 Lemma inv0 d v : Inv (cfg0 d v).
 Proof. constructor; cbn; intros; try congruence; try lia; auto. Qed.
@@ -172,6 +172,9 @@ Proof.
   - constructor; cbn in *; auto.
   - constructor; cbn in *; auto.
   - constructor; cbn in *; auto.
+  - (* ERecvHs *)
+    destruct r; cbn; try (constructor; cbn; auto; fail).
+    destruct sock_closed; constructor; cbn in *; auto; try congruence.
 Qed.
 
 Lemma inv_hs b g : Inv g -> Inv (exec (StepHs b) g).
@@ -200,7 +203,7 @@ Lemma inv_reader g : Inv g -> Inv (exec StepReader g).
 Proof.
   intros [H1 H2 H3 H4 H5 H6 HO HO2 H7 H8 H9 H10 H11 H12].
   destruct g as [c h r l]. destruct c. unfold winners, sockers in *. cbn in *.
-  destruct r as [| | |k|p| |]; cbn.
+  destruct r as [| | |k|p| | |f]; cbn.
   - constructor; cbn; auto.
   - (* RRead *)
     destruct can_rd; [|destruct sock_closed]; constructor; unfold winners, sockers; cbn in *; auto;
@@ -241,6 +244,8 @@ Proof.
   - (* RExit *)
     constructor; unfold winners, sockers; cbn in *; auto; try congruence; try lia.
   - constructor; cbn; auto.
+  - (* RHand *)
+    destruct f; constructor; unfold winners, sockers; cbn in *; auto; try congruence; try lia.
 Qed.
 
 Lemma inv_user i g : Inv g -> Inv (exec (StepUser i) g).
@@ -408,7 +413,7 @@ Lemma reader_step_mono r c :
   est c' = est c /\ cn_close c <= cn_close c' /\ (closed c = true -> closed c' = true) /\
   total c <= total c' /\ (sock_closed c = false -> once_sent c -> once_sent c') /\ wr_blk c' = wr_blk c.
 Proof.
-  destruct r as [| | |k|p| |]; [| | |destruct k|destruct p as [|w i|w i| |e| |]| |]; mono.
+  destruct r as [| | |k|p| | |f]; [| | |destruct k|destruct p as [|w i|w i| |e| |]| | |]; mono.
   all: unfold once_sent, total in *; cbn in *; try lia; auto.
   all: try (rewrite H, H2 in *; discriminate).
 Qed.
@@ -611,7 +616,7 @@ Proof.
       constructor; cbn in *; auto; try (apply forallb_upd; auto);
       try exact J2; try (intros _; split; [exact P3|exact P1]);
       try (cbn; destruct (est c); reflexivity).
-  - destruct r as [| | |k|p| |]; [| | |destruct k|destruct p as [|w i|w i| |e| |]| |]; cbn;
+  - destruct r as [| | |k|p| | |f]; [| | |destruct k|destruct p as [|w i|w i| |e| |]| | |]; cbn;
       rewrite ?andb_false_r; unfold send_cn_reply;
       repeat match goal with
              | |- context [if ?b then _ else _] => destruct b eqn:?
@@ -795,7 +800,7 @@ Proof.
     destruct (find_wait _ EU P) as (i & E).
     destruct (i_open _ I Ec) as (A & _). cbn in A.
     pose proof (forallb_nth _ _ _ _ A E) as X. discriminate. }
-  destruct r as [| | |k|p| |] eqn:Er;
+  destruct r as [| | |k|p| | |f] eqn:Er;
     try (exists StepReader; cbn; auto; fail).
   - (* RNone *)
     pose proof (i_rd _ I) as Hrd. cbn in Hrd.
@@ -861,7 +866,7 @@ Proof.
         -- specialize (S UDone E). unfold mu; cbn in *; lia.
     + apply negb_true_iff in En. cbn. rewrite En. specialize (S UDone E). unfold mu; cbn in *; lia.
     + discriminate.
-  - destruct r as [| | |k|p| |]; cbn; try discriminate.
+  - destruct r as [| | |k|p| | |f]; cbn; try discriminate.
     + intro En. destruct (can_rd c); [unfold mu; cbn; lia|].
       cbn in En. rewrite En. unfold mu; cbn; lia.
     + intro En. destruct (wr_blk c), (can_rd c), (sock_closed c); cbn in *; try discriminate;
@@ -870,9 +875,10 @@ Proof.
     + intros _. destruct p as [|w k|w k| |e| |]; cbn; try destruct k; try destruct w;
         try destruct (e && false); unfold mu; cbn; lia.
     + intros _. unfold mu; cbn; lia.
+    + intros _. unfold mu; cbn; lia.
   - destruct h as [| | | |x|x]; cbn; try discriminate.
     + intros _. destruct (dual c); unfold mu; cbn; [lia|].
-      destruct r as [| | |k|p| |]; cbn; try lia; try (destruct k; lia); try (destruct p; cbn; lia).
+      destruct r as [| | |k|p| | |f]; cbn; try lia; try (destruct k; lia); try (destruct p; cbn; lia).
     + intro En. destruct (hctx c); [unfold mu; cbn; lia|].
       cbn in En. rewrite En. unfold mu; cbn; lia.
     + destruct b.
@@ -1051,7 +1057,7 @@ Proof.
     + destruct (hs_open c); constructor; cbn; auto.
     + destruct (hs_open c); constructor; cbn; auto.
     + constructor; cbn; auto.
-  - destruct r as [| | |k|p| |]; cbn.
+  - destruct r as [| | |k|p| | |f]; cbn.
     + constructor; cbn; auto.
     + destruct (can_rd c) eqn:Ec; [|destruct (sock_closed c)]; constructor; cbn; auto;
         intros; try discriminate; try congruence; auto; fin.
@@ -1074,6 +1080,8 @@ Proof.
       * constructor; cbn; auto; try discriminate; try congruence; fin.
     + constructor; cbn; auto; try discriminate; try congruence; fin.
     + constructor; cbn; auto.
+    + destruct f; constructor; cbn; auto; try discriminate; try congruence;
+        unfold put_first_err; cbn; destruct (first_err c) eqn:Ef; intros; try discriminate; try congruence; auto; fin.
   - destruct h as [| | | |x|x]; cbn.
     + constructor; cbn; auto.
     + destruct (dual c); constructor; cbn; auto; try discriminate; try congruence; fin.
@@ -1108,6 +1116,8 @@ Proof.
     + constructor; cbn; auto.
     + constructor; cbn; auto.
     + constructor; cbn; auto.
+    + destruct r; cbn; try (constructor; cbn; auto; fail).
+      destruct (sock_closed c); constructor; cbn; auto; try discriminate; try congruence; fin.
 Qed.
 
 Lemma inv3_run ops g : Inv g -> Inv3 g -> Inv3 (run ops g).
@@ -1210,6 +1220,43 @@ Example reply_blocked_until_close :
   let g' := run (SpawnClose :: repeat (StepUser 0) 7 ++ repeat StepReader 10) g in
   quiet g' = true /\ cn_close (cn g') + cn_reply (cn g') = 0 /\ sock_closes (cn g') = 1.
 Proof. vm_compute. repeat split; reflexivity. Qed.
+
+(* ================================================================== the state machine fails *)
+
+(* The read loop parked on "<-s.Done" is released whatever the state machine does with the datagram:
+   the step is enabled in every configuration (so no_deadlock / close_returns cover it) and leads
+   back to the socket read.  A state machine that released the lease only on success would leave
+   [RHand true] without an enabled step: the peer's close_notify is never read, the reader
+   outlives Close() (seeded change C16d). *)
+Theorem fsm_failure_releases_reader g f :
+  rd g = RHand f ->
+  op_enabled StepReader g = true /\ rd (exec StepReader g) = RRead /\
+  closed (cn (exec StepReader g)) = closed (cn g).
+Proof.
+  destruct g as [c h r l]. cbn. intros ->. cbn. destruct f; auto.
+Qed.
+
+(* established; the ACK of the peer's KeyUpdate cannot be written and the state machine ends;
+   then the peer closes: the close_notify is read, answered once, Read gets io.EOF, nothing is left *)
+Definition ops_failed_post_handshake_then_peer_close : list op :=
+  ops_established ++ [Env (ERecvHs true); StepReader; Env ERecvCN] ++ repeat StepReader 11.
+
+Example failed_post_handshake_then_peer_close :
+  let g := run ops_failed_post_handshake_then_peer_close (cfg0 false true) in
+  closed (cn g) = true /\ cn_reply (cn g) = 1 /\ cn_close (cn g) = 0 /\ dec_closed (cn g) = true /\
+  sock_closes (cn g) = 1 /\ quiet g = true /\ In KEof (read_ready (cn g)).
+Proof. vm_compute. repeat split; auto. Qed.
+
+(* ... then the application closes while the read loop is still parked: Close() returns, the read
+   loop is released and ends *)
+Definition ops_failed_post_handshake_then_close : list op :=
+  ops_established ++ [Env (ERecvHs true); SpawnClose] ++ repeat (StepUser 0) 7 ++ repeat StepReader 4.
+
+Example failed_post_handshake_then_close :
+  let g := run ops_failed_post_handshake_then_close (cfg0 false true) in
+  closed (cn g) = true /\ cn_close (cn g) = 1 /\ sock_closes (cn g) = 1 /\ quiet g = true /\
+  us g = [UDone] /\ rd g = RDone.
+Proof. vm_compute. repeat split; auto. Qed.
 
 (* ================================================================== known gap K-C16-1 *)
 
